@@ -1,6 +1,6 @@
 (* Model/Checker.v -- executable twin of the static checker: checker.go (Check of every node,
    tryRewriteExpr, checkWithAndOr / Math / Compares / In / Between, FieldAccessExpr.Check),
-   statement.go (Validate / ValidateFields / checkAggrFunctionArgs), the Validate calls and the
+   statement.go (Validate / resolveFieldNames / ValidateFields / checkAggrFunctionArgs), the Validate calls and the
    CheckCtx flags of parser.go (Parse / parsePut / parseRemove / parseDelete, findFieldInSelect
    for ORDER BY) and checkStatementFunctionCalls / checkFunctionCalls of optimizer.go (run by
    BuildPlan right after Parse, before anything touches the storage).
@@ -22,6 +22,11 @@
      - a cascaded field access accepted any field-name expression;
      - a WHERE clause that is a field name alone was not resolved;
      - no function-call validation before the plan is built.
+   One more pre-fix behaviour has its own variant instead of a branch on [fx] (so that the
+   witness can be stated with every other repair in place): [check_select_pinned] /
+   [build_check_pinned], Parser.Parse before SelectStmt.resolveFieldNames existed -- the field
+   names inside the select fields were resolved while the fields were checked, one pass in
+   order, after the WHERE clause.
 
    Ordering note: the Go code resolves a name operand and then calls Check on the result
    (Not / List / FieldAccess / call arguments) or calls Check and then resolves (BinaryOp).
@@ -318,14 +323,87 @@ Fixpoint check_order (names : list (string * expr)) (l : list (nat * string)) : 
   | it :: l' => do _ <- find_order_field names it; check_order names l'
   end.
 
-(* A FieldReferenceExpr points to the tree of the field it names (the first field with that
-   name), and Check rewrites that tree IN PLACE: once the field has been checked, every
-   reference to it made earlier -- also one sitting inside the definition carried by another
-   reference -- sees the checked tree, and ReturnType() of the reference is computed on it
-   (`zq1 + 'x' as zq0` is a number while zq1 is an unresolved name and text once zq1 has been
-   resolved to a text field).  [relink n d e]: the definition carried by every reference to [n]
-   in [e] becomes [d].  Only the places ReturnType() can reach are visited (not a function
-   name, not the field-name expression of a field access). *)
+(* ---------------------------------------------------------------- field references
+
+   A FieldReferenceExpr points to the tree of the field it names (the first field with that
+   name); ReturnType() of the reference is computed on that tree, on demand.  The twin's [ERef]
+   carries a copy of the definition instead of a pointer.
+
+   SelectStmt.resolveFieldNames (statement.go; Parser.Parse calls it right after
+   checkFieldCycles, before ORDER BY / GROUP BY are parsed and before anything is type
+   checked): every field name used as an operand inside a select field becomes a reference --
+   the places Check would resolve: both sides of a binary operator, the operand of !, call
+   arguments, list items, the left side of a field access (and whatever Walk reaches below the
+   field-name expression of an access); a reference is not entered, a field that is only a
+   name stays a name.  (Walk also enters the function-name expression of a call; a name
+   standing there is not an operand, and a compound function name is rejected by Check
+   whatever it holds: the twin leaves it alone.) *)
+Fixpoint resolve (names : list (string * expr)) (e : expr) {struct e} : expr :=
+  match e with
+  | EBin p o l r => EBin p o (rewrite_name names (resolve names l)) (rewrite_name names (resolve names r))
+  | ENot p r => ENot p (rewrite_name names (resolve names r))
+  | ECall p nm args => ECall p nm (map (fun a => rewrite_name names (resolve names a)) args)
+  | EList p items => EList p (map (fun a => rewrite_name names (resolve names a)) items)
+  | EAccess p l f => EAccess p (rewrite_name names (resolve names l)) (resolve names f)
+  | _ => e
+  end.
+
+(* The pointer graph after resolveFieldNames, as trees: every reference carries the RESOLVED
+   tree of the field it names, whose references carry resolved trees in turn.  checkFieldCycles
+   has passed, so the chains of references end: a chain visits each field at most once, and
+   unfolding the definitions as many times as there are fields reaches the end of every chain
+   ([link_n k]: references nested k deep are resolved, the innermost carry the parser's trees;
+   ReturnType() of a field never looks further than the chain). *)
+Fixpoint link_n (k : nat) (raw : list (string * expr)) : list (string * expr) :=
+  match k with
+  | 0 => raw
+  | S k' => map (fun nf => (fst nf, resolve (link_n k' raw) (snd nf))) raw
+  end.
+
+Definition link (raw : list (string * expr)) : list (string * expr) := link_n (List.length raw) raw.
+
+(* SelectStmt.ValidateFields: Check + the nested-aggregate test, field after field, every field
+   against the resolved fields [all].  Check finds the field already resolved (a reference is
+   left as it is, tryRewriteExpr has nothing left to do) and applies its type tests to
+   references whose type is the type of the resolved definition -- the tests Check applies to
+   the parser's tree [f] under the CheckCtx of the resolved fields, which is how the twin runs
+   it (the references Check makes then carry the resolved definitions). *)
+Fixpoint validate_fields (all todo : list (string * expr)) : res (list (string * expr)) :=
+  match todo with
+  | [] => Ok []
+  | (n, f) :: todo' =>
+      do f2 <- check (Cctx all false false) f;
+      do _ <- aggr_field f2;
+      do r <- validate_fields all todo';
+      Ok ((n, f2) :: r)
+  end.
+
+Definition where_bool (w : expr) : res unit :=
+  if ty_eqb (rtype w) TBool then Ok tt else serr (epos w).
+
+(* Parser.Parse for a SELECT, from checkFieldCycles on (which is a hook of the parser twin,
+   Model/ParseCheck.v): resolveFieldNames, the ORDER BY lookups, WHERE, ValidateFields *)
+Definition check_select (fields : list (string * expr)) (w : expr) (order : list (nat * string))
+  : res stmt :=
+  let all := link fields in
+  do _ <- check_order all order;
+  do w1 <- check (Cctx all false false) w;
+  let w2 := if fx then rewrite_name all w1 else w1 in   (* Parse resolves a WHERE that is a field name *)
+  do _ <- where_bool w2;
+  do fields2 <- validate_fields all fields;
+  Ok (SSelect fields2 w2 order).
+
+(* ---------------------------------------------------------------- the same before the fix:
+   commit "select fields were type checked against fields whose names were not resolved yet"
+   (kept for forward_reference_pinned_refuted, Properties/C14.v).  No resolveFieldNames: the
+   ORDER BY lookups and the WHERE clause saw the parser's fields, and ValidateFields resolved
+   and checked the fields in ONE pass, in order.  Check rewrites a field IN PLACE: once the field
+   has been checked, every reference to it made earlier -- also one sitting inside the
+   definition carried by another reference -- sees the checked tree, and ReturnType() of the
+   reference is computed on it (`zq1 + 'x' as zq0` is a number while zq1 is an unresolved name
+   and text once zq1 has been resolved to a text field).  [relink n d e]: the definition carried
+   by every reference to [n] in [e] becomes [d].  Only the places ReturnType() can reach are
+   visited (not a function name, not the field-name expression of a field access). *)
 Fixpoint relink (n : string) (d : expr) (e : expr) {struct e} : expr :=
   match e with
   | EBin p o l r => EBin p o (relink n d l) (relink n d r)
@@ -343,31 +421,26 @@ Definition has_name (n : string) (fs : list (string * expr)) : bool :=
 Definition relink_fields (n : string) (d : expr) (fs : list (string * expr)) : list (string * expr) :=
   map (fun nf => (fst nf, relink n d (snd nf))) fs.
 
-(* SelectStmt.ValidateFields: the fields are checked one after the other; the Go checker
-   rewrites a field in place, so the fields checked later see the rewritten form of the earlier
-   ones, and the references made earlier to the field just checked see its rewritten form
-   (unless an earlier field has the same name: references go to that one).
-   [done]: fields already checked, [todo]: still to do (as the parser built them: no
-   references inside). *)
-Fixpoint validate_fields (done todo : list (string * expr)) : res (list (string * expr)) :=
+(* the fields checked later see the rewritten form of the earlier ones, and the references made
+   earlier to the field just checked see its rewritten form (unless an earlier field has the
+   same name: references go to that one).  [done]: fields already checked, [todo]: still to do
+   (as the parser built them: no references inside). *)
+Fixpoint validate_fields_pinned (done todo : list (string * expr)) : res (list (string * expr)) :=
   match todo with
   | [] => Ok done
   | (n, f) :: todo' =>
       do f2 <- check (Cctx (done ++ todo) false false) f;
       do _ <- aggr_field f2;
-      validate_fields ((if has_name n done then done else relink_fields n f2 done) ++ [(n, f2)]) todo'
+      validate_fields_pinned ((if has_name n done then done else relink_fields n f2 done) ++ [(n, f2)]) todo'
   end.
 
-Definition where_bool (w : expr) : res unit :=
-  if ty_eqb (rtype w) TBool then Ok tt else serr (epos w).
-
-Definition check_select (fields : list (string * expr)) (w : expr) (order : list (nat * string))
+Definition check_select_pinned (fields : list (string * expr)) (w : expr) (order : list (nat * string))
   : res stmt :=
   do _ <- check_order fields order;
   do w1 <- check (Cctx fields false false) w;
-  let w2 := if fx then rewrite_name fields w1 else w1 in   (* Parse resolves a WHERE that is a field name *)
+  let w2 := if fx then rewrite_name fields w1 else w1 in
   do _ <- where_bool w2;
-  do fields2 <- validate_fields [] fields;
+  do fields2 <- validate_fields_pinned [] fields;
   Ok (SSelect fields2 w2 order).
 
 Definition strnum_or (e : expr) : res unit :=
@@ -482,6 +555,15 @@ Definition check_stmt_calls (s : stmt) : res unit :=
    validation (constant folding, scan planning and plan construction come afterwards) *)
 Definition build_check (s : stmt) : res stmt :=
   do s2 <- check_stmt s;
+  do _ <- (if fx then check_stmt_calls s2 else Ok tt);
+  Ok s2.
+
+(* a SELECT through the pre-fix Parse (see check_select_pinned) *)
+Definition build_check_pinned (s : stmt) : res stmt :=
+  do s2 <- (match s with
+            | SSelect fields w order => check_select_pinned fields w order
+            | _ => check_stmt s
+            end);
   do _ <- (if fx then check_stmt_calls s2 else Ok tt);
   Ok s2.
 
